@@ -36,14 +36,19 @@ META = dict(
                  "RelaxedNewton needs an invertible metric: a harness subclass of EnergyAdapter wraps the "
                  "library metric in InversionEnabler (tight controller)",
                  "Wolfe inequalities are judged with slack 1e-10 x (sum of magnitudes of the energy's terms) "
-                 "resp. 1e-10 |grad||pk|: the library compares its own floats, the mirror's differ by rounding",
+                 "resp. 1e-10 x (magnitudes of the gradient's additive parts) |pk|: the library compares its own "
+                 "floats, the mirror's differ by rounding; if |phi'(0)| is below that slack the line search is "
+                 "not judged (flat direction)",
+                 "NewtonCG raising ValueError('Cannot find descent direction') is a violation unless the gradient "
+                 "at the failing iterate is below 1e-12 of its rounding scale or below 1e-30 of the energy's magnitude "
+                 "(numerically flat point, curvature underflows -> skipped)",
                  "L-BFGS direction comparisons use the relative tolerance 1e-9 + 10 x (change of the dense "
                  "reference under a 1e-13 relative perturbation of the history) and are skipped if that "
                  "exceeds 1e-5 or a used pair has non-positive curvature"],
     need=["accepted_step_checks", "line_searches_seen", "wolfe_checks", "zoom_line_searches",
           "lbfgs_direction_vs_dense", "lbfgs_twin_comparisons", "status_checks"],
     quick=dict(cases=700, workers=6, budget_s=80),
-    thorough=dict(cases=30000, workers=16, budget_s=700),
+    thorough=dict(cases=16000, workers=16, budget_s=700),
     design_ref="DESIGN.md §5 C16",
     level_text=("generated energies x minimisers x line-search parameters; every accepted step, every line "
                 "search result and every (V)L-BFGS direction of the real code is re-judged independently; "
@@ -216,6 +221,34 @@ def fam_grad(fam, uu, d, a, q):
     raise ValueError(fam)
 
 
+def fam_grad_mag(fam, uu, d, a, q):
+    """sum of magnitudes of the additive parts of dF/du (rounding scale of the gradient)"""
+    au, ad = np.abs(uu), np.abs(d)
+    if fam == "quad":
+        return au + ad
+    if fam == "lsq_tanh":
+        t = np.tanh(uu)
+        return (np.abs(t) + ad) * np.abs(1 - t ** 2)
+    if fam == "lsq_sin":
+        return (np.abs(np.sin(uu)) + ad) * np.abs(np.cos(uu))
+    if fam == "lsq_exp":
+        e = np.exp(0.5 * uu)
+        return (e + ad) * 0.5 * e
+    if fam == "lsq_cubic":
+        return (au + 0.3 * au ** 3 + ad) * (1 + 0.9 * uu ** 2)
+    if fam == "rosen":
+        r1 = 3.0 * (np.roll(au, -1) + uu ** 2)
+        return 3.0 * np.roll(r1, 1) + 6.0 * au * r1 + au + 1.0
+    if fam == "quartic":
+        return (uu ** 2 + a) * au
+    if fam == "trig":
+        return np.abs(a * np.sin(uu)) + q * au
+    if fam == "lse":
+        e = np.exp(uu - np.max(uu))
+        return e / np.sum(e) + q * au
+    raise ValueError(fam)
+
+
 def selftest_gradients(ck):
     """analytic gradients == central finite differences of fam_terms (once per worker)"""
     rng = np.random.default_rng(12345)
@@ -237,6 +270,12 @@ class Mirror:
     def __init__(self, ck, par):
         self.p = par
         self.cache = {}
+        self.gmag = {}
+
+    def grad_scale(self, x):
+        """norm of the sum of magnitudes of the gradient's additive parts at x"""
+        self(x)
+        return self.gmag[x.tobytes()]
 
     def __call__(self, x):
         key = x.tobytes()
@@ -247,6 +286,8 @@ class Mirror:
             v = float(sum(np.sum(t) for t in ts))
             mag = float(sum(np.sum(np.abs(t)) for t in ts))
             g = p["B"].T @ fam_grad(p["fam"], uu, p["d"], p["a"], p["q"]) + p["mu"] * x
+            gm = np.abs(p["B"]).T @ fam_grad_mag(p["fam"], uu, p["d"], p["a"], p["q"]) + p["mu"] * np.abs(x)
+            self.gmag[key] = cs.nrm(gm)
             self.cache[key] = (v, g, mag)
         return self.cache[key]
 
@@ -394,9 +435,16 @@ class Judge:
         if not (alpha > 0):
             self.viol(f"linesearch-nonpositive-step:{kind}", "successful line search with step <= 0",
                       alpha=alpha)
-        if dphi0 >= 0:
+        # rounding scale of directional derivatives: the library's and the mirror's gradients agree up to
+        # 1e-10 x (magnitudes of the gradient's additive parts), not relative to the (possibly cancelling)
+        # gradient itself
+        slack_g = 1e-10 * (self.mirror.grad_scale(x) + self.mirror.grad_scale(xn)) * cs.nrm(p) + 1e-300
+        if dphi0 > slack_g:
             self.viol(f"linesearch-success-on-ascent-direction:{kind}",
                       "success although pk is not a descent direction", dphi0=dphi0)
+            return True
+        if dphi0 >= -slack_g:
+            ck.hit("wolfe_ties_flat_direction")      # phi'(0) is rounding noise: inequalities not decidable
             return True
         slack_f = 1e-10 * (mag0 + maga) + 1e-10 * abs(c1 * alpha * dphi0) + 1e-300
         if not (fa <= f0 + c1 * alpha * dphi0 + slack_f):
@@ -405,7 +453,6 @@ class Judge:
                       alpha=alpha, phi0=f0, phia=fa, dphi0=dphi0, c1=c1,
                       excess=fa - (f0 + c1 * alpha * dphi0), ls=lsdesc)
         dphia = float(ga @ p)
-        slack_g = 1e-10 * (cs.nrm(ga) + cs.nrm(g0)) * cs.nrm(p) + 1e-300
         if not (abs(dphia) <= c2 * abs(dphi0) + slack_g):
             self.viol(f"wolfe-curvature:{kind}",
                       "line search reported success but |phi'(alpha)| > c2 |phi'(0)|",
@@ -590,15 +637,35 @@ def case(ck, i):
         mini = ift.NonlinearCG(ic, beta_heuristics=beta)
         desc["beta"] = beta
     rec.begin()
+    raised = None
     try:
         out_energy, status = mini(energy)
+    except ValueError as e:
+        if "descent direction" not in str(e):
+            raise
+        raised = e
     finally:
         events = rec.end()
+    cev = [e for e in events if e["t"] == "ctrl" and e["ctrl"] is ic]
+    nacc = J.accepted_steps(cev, mname)
+    if raised is not None:
+        # NewtonCG raises instead of returning ERROR when its inner CG fails.  At a numerically flat point
+        # (gradient / metric underflow) the Newton system is degenerate: the case is inconclusive there.
+        last = cev[-1]["energy"] if cev else energy
+        gn = float(last.gradient_norm)
+        xl = cs.fvec(last.position).astype(np.float64)
+        gs = mirror.grad_scale(xl)
+        if gn <= 1e-12 * gs or gn <= 1e-30 * (mirror(xl)[2] + 1e-300):
+            ck.note(dict(desc, accepted=nacc), nontrivial=False, klass=f"{mname}:{en['fam']}")
+            ck.skip("NewtonCG at a numerically flat point (gradient below rounding scale)")
+            return
+        J.viol(f"minimizer-raises:{mname}:ValueError",
+               f"{mname} raised '{raised}' instead of returning CONVERGED or ERROR", gradient_norm=gn)
+        ck.note(dict(desc, accepted=nacc), nontrivial=False, klass=f"{mname}:{en['fam']}")
+        return
     ck.hit("status_checks")
     if status not in (CONV, ERR):
         J.viol(f"minimizer-status:{mname}", f"{mname} returned status {status!r}")
-    cev = [e for e in events if e["t"] == "ctrl" and e["ctrl"] is ic]
-    nacc = J.accepted_steps(cev, mname)
     # the returned energy is never worse than the start
     _, fo, _, mago = J.energy_vs_mirror(out_energy, "returned")
     if fo > f0 + 1e-10 * (mago + abs(f0)):
